@@ -259,6 +259,60 @@ def run(R):
     stamp_contained(R, ro, hier_, "C10.COMPUTE-ONCE", classes=list(dict((c.qualname, c) for c in [fut, fb] + [c for c in repo.subclasses(fb, strict=True) if c.module.name == "futures"]).values()), min_n=0)
     # value() of a task is wait_for(): it returns only when the task is computed (a future is never handed out half done)
     common.wait_for_exits(R, ro, "C10.COMPUTE-ONCE")
+    # a subscriber's exception is swallowed in _computed(): what the handler does with the exception object (a user object) must not
+    # raise in turn - an unguarded repr()/str()/%-format of it escapes from set_value(), the provider wrapper takes that for a provider
+    # failure and set_error() reports FutureIsAlreadyComputed once, the value ever after
+    n_sw = 0
+    for cls_ in list(dict((c.qualname, c) for c in [fb] + list(repo.subclasses(fb, strict=True))).values()):
+        cm_ = cls_.methods.get("_computed")
+        if cm_ is None or cls_.module.name.startswith("tests"):
+            continue
+        for h in [x for x in q.scope_nodes(cm_.node) if isinstance(x, ast.ExceptHandler) and x.name]:
+            if any(isinstance(y, ast.Raise) for y in ast.walk(h)):
+                continue
+            n_sw += 1
+            bad = []
+            for y in ast.walk(h):
+                if isinstance(y, ast.Call) and isinstance(y.func, ast.Name) and y.func.id in ("repr", "str", "format", "ascii") and any(isinstance(a, ast.Name) and a.id == h.name for a in y.args):
+                    bad.append(y)
+                elif isinstance(y, ast.BinOp) and isinstance(y.op, ast.Mod) and any(isinstance(z, ast.Name) and z.id == h.name and isinstance(getattr(z, "_parent", None), (ast.BinOp, ast.Tuple)) for z in ast.walk(y.right)):
+                    bad.append(y)
+                elif isinstance(y, ast.FormattedValue) and isinstance(y.value, ast.Name) and y.value.id == h.name:
+                    bad.append(y)
+                elif isinstance(y, ast.Call) and isinstance(y.func, ast.Attribute) and y.func.attr == "format" and any(isinstance(a, ast.Name) and a.id == h.name for a in y.args):
+                    bad.append(y)
+            R.check(not bad, "C10.NOTIFY", "%s:swallow-safe:%s" % (cm_.qualname, h.name), R.site(cm_, bad[0] if bad else h),
+                    "the handler that swallows a subscriber's exception converts it to text only through the safe converters (debug.repr / debug.str)",
+                    "%s reports a subscriber's exception with `%s`: a user exception whose __repr__/__str__ raises escapes from set_value() - Future._compute() "
+                    "takes that for a failure of the value provider and calls set_error(), so the first value() raises FutureIsAlreadyComputed and every later "
+                    "one returns the value (one future, two reports)" % (cm_.qualname, q.src(bad[0])[:60] if bad else ""))
+    R.need(n_sw >= 1, "idiom: no _computed() swallows its subscribers' exceptions any more")
+    # an "in progress" flag set by a _compute() is cleared when that computation ends, however it ends: after reset_unsafe() (or after an
+    # exception that left the future without an outcome) the future is computed again, and a flag that stays set refuses that for ever
+    for cls_ in list(dict((c.qualname, c) for c in [fb] + list(repo.subclasses(fb, strict=True))).values()):
+        cm = cls_.methods.get("_compute")
+        if cm is None or cls_.module.name.startswith("tests"):
+            continue
+        ccfg2 = cfg_of(cm)
+        sets_ = {}
+        for n in ccfg2.nodes:
+            if n.kind == "stmt" and isinstance(n.ast, ast.Assign) and len(n.ast.targets) == 1 and isinstance(n.ast.targets[0], ast.Attribute) \
+                    and q.src(n.ast.targets[0].value) == "self" and isinstance(n.ast.value, ast.Constant) and isinstance(n.ast.value.value, bool):
+                sets_.setdefault(n.ast.targets[0].attr, {}).setdefault(n.ast.value.value, []).append(n)
+        for fld, by in sets_.items():
+            if True not in by:
+                continue
+            # tested in the same method with a raise on the set side: a guard flag
+            guards_ = [x for x in ccfg2.nodes if x.kind == "test" and q.atom_test(x.ast)[0] == "truth" and q.atom_test(x.ast)[1] == "self." + fld]
+            if not guards_:
+                continue
+            after = [e.dst for sn in by[True] for e in ccfg2.out_edges(sn.id, X)]
+            pe = ccfg2.find_path(after, [ccfg2.exit, ccfg2.raise_exit], X, cut_nodes=by.get(False, []))
+            R.check(pe is None and by.get(False), "C10.COMPUTE-ONCE", "%s:%s:cleared" % (cm.qualname, fld), R.site(cm, by[True][0].ast),
+                    "self.%s is cleared on every way out of %s" % (fld, cm.name),
+                    "%s sets the guard flag self.%s and can leave without clearing it: a later computation of the same future - after reset_unsafe(), or after "
+                    "an interrupt that left it without an outcome - is refused for ever (value(), error() and calling it raise instead of reporting an outcome)"
+                    % (cm.qualname, fld), ccfg2.fmt_path(pe) if pe else None)
     # ---- COMPUTE-ONCE
     for mname in ("value", "error"):
         m = fb.methods.get(mname)
@@ -297,8 +351,10 @@ def run(R):
                     cfg.fmt_path(p) if p else None)
     rie = fb.methods.get("raise_if_error")
     R.need(rie is not None, "anchor vanished: FutureBase.raise_if_error")
-    tests = [n for n in ast.walk(rie.node) if isinstance(n, ast.If)]
-    okt = len(tests) == 1 and q.atom_test(tests[0].test) == ("isnone", "self._error", False)
+    tests = [n for n in rie.node.body if isinstance(n, ast.If)]
+    inner = set(id(x) for t_ in tests for x in ast.walk(t_))
+    stray = [n for n in ast.walk(rie.node) if (isinstance(n, ast.Raise) or (isinstance(n, ast.Call) and (q.call_name(n) or "").endswith("reraise"))) and id(n) not in inner]
+    okt = len(tests) == 1 and q.atom_test(tests[0].test) == ("isnone", "self._error", False) and not stray
     R.check(okt, "C10.COMPUTE-ONCE", rie.qualname + ":identity", R.site(rie),
             "raise_if_error tests `self._error is not None` (identity)",
             "raise_if_error tests `%s`: a stored error that is falsy (an exception class defining __len__/__bool__) is not raised by value() although error() reports it"
@@ -307,6 +363,9 @@ def run(R):
     raises = [n for n in ast.walk(rie.node) if isinstance(n, ast.Raise) and n.exc is not None and q.src(n.exc) == "self._error"]
     R.check(bool(rr or raises), "C10.COMPUTE-ONCE", rie.qualname, R.site(rie),
             "raise_if_error raises the stored error object itself", "raise_if_error does not raise the stored error object")
+    rr_nodes = [n for n, c in kit.call_sites(rie, lambda c: (q.call_name(c) or "").endswith("reraise") and c.args and q.src(c.args[0]) == "self._error")]
+    if rr_nodes:
+        common.stamp_trusted(R, "C10.CONSISTENT", rie, rr_nodes, "self._error", False, "qcore's reraise() in raise_if_error")
     ic = fb.methods.get("is_computed")
     R.need(ic is not None, "anchor vanished: FutureBase.is_computed")
     rets = [n for n in ast.walk(ic.node) if isinstance(n, ast.Return)]
